@@ -28,10 +28,16 @@ pub struct Parser {
     where_parsed: bool,
     /// Current nesting of brackets and function calls (the parser and the evaluator recurse once per level)
     nesting: u32,
+    /// Number of arithmetic operators met so far (each one puts its left operand one level deeper)
+    arithmetic_ops: u32,
 }
 
 /// Deeper nesting than this is rejected instead of overflowing the stack
 const MAX_NESTING: u32 = 500;
+
+/// More arithmetic operators than this in one query are rejected for the same reason: `1 + 1 + 1 ...` is
+/// as deep a tree as it is long
+const MAX_ARITHMETIC_OPS: u32 = 1000;
 
 impl Parser {
     pub fn new() -> Parser {
@@ -41,6 +47,7 @@ impl Parser {
             roots_parsed: false,
             where_parsed: false,
             nesting: 0,
+            arithmetic_ops: 0,
         }
     }
 
@@ -461,29 +468,25 @@ impl Parser {
     fn parse_expr(&mut self) -> Result<Option<Expr>, String> {
         let left = self.parse_and()?;
 
-        let mut right: Option<Expr> = None;
+        let mut rest: Vec<Expr> = vec![];
         loop {
             let lexem = self.next_lexem();
             match lexem {
                 Some(Lexem::Or) => {
-                    let expr = self.parse_and()?;
-                    right = match right {
-                        Some(right) => Some(Expr::logical_op(
-                            right,
-                            LogicalOp::Or,
-                            expr.clone().unwrap(),
-                        )),
-                        None => expr,
-                    };
+                    if let Some(expr) = self.parse_and()? {
+                        rest.push(expr);
+                    }
                 }
                 _ => {
                     self.drop_lexem();
 
-                    return match right {
-                        Some(right) => {
-                            Ok(Some(Expr::logical_op(left.unwrap(), LogicalOp::Or, right)))
-                        }
-                        None => Ok(left),
+                    return match rest.is_empty() {
+                        false => Ok(Some(Expr::logical_op(
+                            left.unwrap(),
+                            LogicalOp::Or,
+                            Self::chain(rest, &LogicalOp::Or),
+                        ))),
+                        true => Ok(left),
                     };
                 }
             }
@@ -493,29 +496,45 @@ impl Parser {
     fn parse_and(&mut self) -> Result<Option<Expr>, String> {
         let left = self.parse_cond()?;
 
-        let mut right: Option<Expr> = None;
+        let mut rest: Vec<Expr> = vec![];
         loop {
             let lexem = self.next_lexem();
             match lexem {
                 Some(Lexem::And) => {
-                    let expr = self.parse_cond()?;
-                    right = match right {
-                        Some(right) => Some(Expr::logical_op(right, LogicalOp::And, expr.unwrap())),
-                        None => expr,
-                    };
+                    if let Some(expr) = self.parse_cond()? {
+                        rest.push(expr);
+                    }
                 }
                 _ => {
                     self.drop_lexem();
 
-                    return match right {
-                        Some(right) => {
-                            Ok(Some(Expr::logical_op(left.unwrap(), LogicalOp::And, right)))
-                        }
-                        None => Ok(left),
+                    return match rest.is_empty() {
+                        false => Ok(Some(Expr::logical_op(
+                            left.unwrap(),
+                            LogicalOp::And,
+                            Self::chain(rest, &LogicalOp::And),
+                        ))),
+                        true => Ok(left),
                     };
                 }
             }
         }
+    }
+
+    /// Joins the conditions of an AND / OR chain, in their order, into a tree whose depth grows with the
+    /// logarithm of their number: the evaluator recurses once per level, and a chain of some ten thousand
+    /// conditions joined one below the other overflowed the stack.
+    fn chain(mut conditions: Vec<Expr>, op: &LogicalOp) -> Expr {
+        if conditions.len() == 1 {
+            return conditions.remove(0);
+        }
+
+        let right = conditions.split_off(conditions.len().div_ceil(2));
+        Expr::logical_op(
+            Self::chain(conditions, op),
+            op.clone(),
+            Self::chain(right, op),
+        )
     }
 
     fn parse_cond(&mut self) -> Result<Option<Expr>, String> {
@@ -649,6 +668,7 @@ impl Parser {
                 let new_op = ArithmeticOp::from(s);
                 match new_op {
                     Some(ArithmeticOp::Add) | Some(ArithmeticOp::Subtract) => {
+                        self.count_arithmetic_op()?;
                         let expr = self.parse_mul_div()?;
                         if op.is_none() {
                             op = new_op.clone();
@@ -687,6 +707,7 @@ impl Parser {
                     Some(ArithmeticOp::Multiply)
                     | Some(ArithmeticOp::Divide)
                     | Some(ArithmeticOp::Modulo) => {
+                        self.count_arithmetic_op()?;
                         let expr = self.parse_paren()?;
                         if op.is_none() {
                             op = new_op.clone();
@@ -710,6 +731,14 @@ impl Parser {
 
                 return Ok(left);
             }
+        }
+    }
+
+    fn count_arithmetic_op(&mut self) -> Result<(), String> {
+        self.arithmetic_ops += 1;
+        match self.arithmetic_ops > MAX_ARITHMETIC_OPS {
+            true => Err("Too many arithmetic operators".to_string()),
+            false => Ok(()),
         }
     }
 
